@@ -57,6 +57,13 @@ CANARIES = [
     ("m-c18-env-not-wrapped", "C18", "utils/stateful_transforms.py", "    env = LayeredMapping(\n        env\n    )  # We sometimes mutate env", "    env = env if isinstance(env, LayeredMapping) else LayeredMapping(\n        env\n    )  # We sometimes mutate env"),
     ("m-c15-context-off-by-one", "C15", "parser/types/token.py", "⧛{self.source[self.source_start:self.source_end+1]}⧚{self.source[self.source_end+1:]}\"", "⧛{self.source[self.source_start:self.source_end+2]}⧚{self.source[self.source_end+2:]}\""),
     ("m-c07-joint-normalisation", "C07", "model_spec.py", "                spec.materializer_params or None,", "                spec.materializer_params,"),
+    # --- Cox-de Boor recursion of basis_spline (deductive part of C12)
+    ("m-c12-wrong-weight", "C12", "transforms/basis_spline.py", "(1 - alpha(i + 1, d))", "(1 - alpha(i, d))"),
+    ("m-c12-boundary-open", "C12", "transforms/basis_spline.py", "else (x <= knots[i + 1])", "else (x < knots[i + 1])"),
+    ("m-c12-short-level", "C12", "transforms/basis_spline.py", "for i in range(len(knots) - d - 1):", "for i in range(len(knots) - d - 2):"),
+    ("m-c12-intercept-dropped", "C12", "transforms/basis_spline.py", "if i > 0 or include_intercept", "if i > 0"),
+    ("m-c12-stale-memo", "C12", "transforms/basis_spline.py", "        cache[d % 2].clear()\n", ""),
+    ("m-c12-extend-lower", "C12", "transforms/basis_spline.py", "x >= (knots[i] if i != degree else -numpy.inf)", "x >= knots[i]"),
     ("m-c06-drop-skipped", "C06", "materializers/base.py", "                drop_rows.update(null_indices)", "                drop_rows.update(i for i in null_indices if i % 7 != 6)"),
 ]
 
